@@ -22,9 +22,9 @@ def describe(tier):
     p = PLAN[tier]
     return {
         "rule": "(a) index methods: every transition of the C06 state graph (BFS to fixpoint) checks that the receiver of every non-mutating method and every argument (masks, "
-        "mappings, precedence lists, order lists, partner indexes, entry dicts) is byte-identical afterwards. (b) aggregates: a fixed population of 2 index cubes, 2 array "
-        "cubes, 17 + 39 aggregate-function objects (every class in up to four parameterisations, with and without weights: real numbers hidden under False validity with NaN-marked weights missing on a valid row; NaN-marked facts with (values, validity) weights hiding 1e300) and their caller-owned arrays (facts, validity arrays, values hidden under False validity, weights, dimension arrays, "
-        "index entries, tuples, dimension lists); event = cube.calculate(every ordered selection of 1..%d function objects%s) or a shortcut method; BFS over call histories "
+        "mappings, precedence lists, order lists, partner indexes, entry dicts) is byte-identical afterwards. (b) aggregates: a fixed population of 3 index cubes, 3 array cubes (two of each with the same output shape over different data) plus one of each with a different row count, "
+        " 17 + 39 aggregate-function objects (every class in up to four parameterisations, with and without weights: real numbers hidden under False validity with NaN-marked weights missing on a valid row; NaN-marked facts with (values, validity) weights hiding 1e300) and their caller-owned arrays (facts, validity arrays, values hidden under False validity, weights, dimension arrays, "
+        "index entries, tuples, dimension lists); event = cube.calculate(every ordered selection of 1..%d function objects%s) or a shortcut method; BFS over call histories (consecutive events sharing a cube or a function object - hidden state can only travel through a shared object) "
         "to depth %d with the visited set keyed by a hash of the ENTIRE reachable object state (diagnostic counters excluded). On every transition: returned arrays == each "
         "aggregate evaluated alone on fresh objects, bit for bit; caller-owned arguments byte-identical. (c) cube construction leaves its dimension list and arrays untouched." % (
             p["depth1_sel"], "" if p["depth1_triples"] is None else " (triples over a 7-function subset)", 3 if p["depth3"] else 2),
@@ -108,12 +108,18 @@ def main(tier, all_violations=False, t0=None):
         viol.append({"site": v["site"], "detail": v["detail"], "case": {"part": "construct"}})
     # (b) calls engine
     ev1 = depth1_events(tier)
-    red = calls.events(p["depth2_sel"])
+    red = calls.events(p["depth2_sel"]) if p["depth2_sel"] == 1 else calls.events(p["depth2_sel"]) + [e for e in calls.events(1) if e[1] in ("cC", "xC")]
     small = calls.events(1)
+    def share(a, b):
+        """Hidden state can only travel through a shared object: the same cube, or the same function object on cubes of one type."""
+        if a[1] == b[1]:
+            return True
+        return a[0] == "calc" and b[0] == "calc" and a[1][0] == b[1][0] and bool(set(a[2]) & set(b[2]))
+
     hists = [(e,) for e in ev1]
-    hists += [(a, b) for a in red for b in red]
+    hists += [(a, b) for a in red for b in red if share(a, b)]
     if p["depth3"]:
-        hists += [(a, b, c) for a in small for b in small for c in small]
+        hists += [(a, b, c) for a in small for b in small if share(a, b) for c in small if share(b, c) or share(a, c)]
     nshards = 64
     shards = [hists[i::nshards] for i in range(nshards)]
     pool = multiprocessing.get_context("fork").Pool(min(core.NPROC, nshards))
